@@ -268,11 +268,34 @@ def validation(chk, dprog, cfg):
     chk.expect(len(uni) == 1, "R20.3", "expand:union->Err", eb.where(), "Err(\"Unions not supported\") alternatives: %d" % len(uni), cfg)
     # entry point
     tb = dprog.body(dprog.fn("scale_info_derive::type_info"))
-    rt = tb.return_term()
-    alts = list(rt[1]) if rt[0] == "phi" else [rt]
-    errp = [a for a in alts if any(is_call(x, "syn::error::Error::to_compile_error") for x in mir.walk(a))]
-    okp = [a for a in alts if not any(is_call(x, "syn::error::Error::to_compile_error") for x in mir.walk(a))]
-    ok = len(errp) == 1 and len(okp) == 1 and any(x[0] == "downcast" and x[3] == "Ok" for x in mir.walk(okp[0])) and not any(x[0] == "downcast" and x[3] == "Ok" for x in mir.walk(errp[0]))
+    from ..lib import absint
+
+    def entry(good):
+        log = []
+
+        def h(name, args, t):
+            sp = mir.strip_generics(name)
+            lastn = sp.split("::")[-1]
+            if sp == "scale_info_derive::generate" and len(args) == 1:
+                log.append("generate")
+                return absint.ok(absint.Sym("TOKENS")) if good else absint.err(absint.Sym("E"))
+            if sp == "syn::error::Error::to_compile_error" and len(args) == 1:
+                log.append(("to_compile_error", args[0]))
+                return absint.Sym("COMPILE_ERROR")
+            if sp == "syn::error::Error::into_compile_error" and len(args) == 1:
+                log.append(("to_compile_error", args[0]))
+                return absint.Sym("COMPILE_ERROR")
+            if lastn in ("into", "from", "clone") and len(args) == 1:
+                return args[0]
+            return None
+        return absint.run(tb, 0, {1: absint.Sym("input")}, call=h, prog=dprog, inline=True), log
+    try:
+        rg, lg = entry(True)
+        rb, lb = entry(False)
+        ok = rg == absint.Sym("TOKENS") and lg == ["generate"] and rb == absint.Sym("COMPILE_ERROR") and lb == ["generate", ("to_compile_error", absint.Sym("E"))]
+        alts = ["generate Ok -> %r" % (rg,), "generate Err -> %r" % (rb,)]
+    except absint.Unrecognised as e:
+        ok, alts = False, ["cannot interpret: %s" % e]
     chk.expect(ok, "R20.3", "type_info:Err->compile_error-only", tb.where(), "alternatives: %s" % [path_str(a)[:80] for a in alts], cfg)
 
 
